@@ -251,6 +251,54 @@ def run_front(cases, d):
     return impl, model
 
 
+CRLF_TEXT = "@export\r\nMsg = 'HELLO\r\n' name:Word \"\r\n\" $;\r\n@string\r\n@no_skip_ws\r\nWord = {'a'..'z'}+;\r\n"
+
+
+def route_texts(cases, impl, d, res):
+    """every route that takes grammar *text* (file read by the build-script helper, file read by the command-line tool) must
+    read it as `Grammar::from_str` does: same generated code as the library call on the same bytes.  Texts: some of the
+    printed layouts, and one with CR LF line ends and raw CR LF inside literals."""
+    from . import routes
+    cli = routes.build_cli()
+    texts = [('crlf', CRLF_TEXT)] + [(c['id'], c['text']) for c in cases if c['expect'] == 'ok' and impl.get(c['id'], ('',))[0] == 'OK'][:40]
+    lst = os.path.join(d, 'routes.lst')
+    with open(lst, 'w') as f:
+        for cid, text in texts:
+            p = os.path.join(d, 'rt_%s.ebnf' % cid)
+            with open(p, 'w', newline='') as fh:
+                fh.write(text)
+            f.write('%s\t%s\t%s\t-\t-\n' % (cid, p, os.path.join(d, 'rt_%s.lib' % cid)))
+    p = subprocess.run([PVGEN, 'gen', lst], stdout=subprocess.PIPE, stderr=subprocess.DEVNULL, text=True, timeout=600)
+    status = {l.split('\t')[0]: l.split('\t')[1] for l in p.stdout.splitlines() if '\t' in l}
+    n = 0
+    for cid, text in texts:
+        if status.get(cid) != 'OK' or n >= 12:
+            continue
+        n += 1
+        lib = open(os.path.join(d, 'rt_%s.lib' % cid)).read()
+        src = os.path.join(d, 'rt_%s.ebnf' % cid)
+        dst = os.path.join(d, 'rt_%s.rs' % cid)
+        q = subprocess.run([routes.PVUNIT, 'compile', src, dst, '-', '-'], stdout=subprocess.PIPE, stderr=subprocess.PIPE, text=True, timeout=120)
+        res['evaluations'] += 2
+        res['distribution']['text routes compared with the library call (build script, command line)'] += 2
+        rp = dict(kind='front', text=text, style='route', impl=None, model=None, what='')
+        if q.returncode != 0 or not os.path.exists(dst):
+            rp['what'] = 'the build-script helper does not read a grammar text that Grammar::from_str reads: ' + q.stdout[:200]
+            res['prop'].append(rp)
+        else:
+            hdr, body = routes.strip_header(open(dst, newline='').read())
+            if body.lstrip('\n') != lib and body != '\n\n' + lib and lib not in body:
+                rp['what'] = 'the build-script helper reads the grammar text differently from Grammar::from_str (generated code differs)'
+                res['prop'].append(rp)
+        q = subprocess.run([cli, src], stdout=subprocess.PIPE, stderr=subprocess.PIPE, text=True, timeout=120)
+        hdr, body = routes.strip_header(q.stdout)
+        if q.returncode != 0 or lib not in body:
+            rp = dict(rp)
+            rp['what'] = 'the command-line tool reads the grammar text differently from Grammar::from_str (exit %d)' % q.returncode
+            res['prop'].append(rp)
+        res['nontrivial'].add((cid, 'routes'))
+
+
 def run_C12(seed, tier, pid='C12'):
     t0 = time.time()
     ok, err, dt = build_harness()
@@ -299,6 +347,8 @@ def run_C12(seed, tier, pid='C12'):
                 res['samples'].append(dict(style=c['style'], text=c['text'][:600], outcome=i[0]))
         if not res['samples']:
             res['samples'].append(dict(text=cases[0]['text'][:400]))
+        if pid == 'C12':
+            route_texts(cases, impl, d, res)
         res['engine'] = 'frontend'
         res['wall_s'] = time.time() - t0
         return res
